@@ -19,7 +19,7 @@ for p in props:
         'evidence_file': 'evidence/%s.json' % p['id'],
         'replay_cmd_template': 'bin/check %s --replay {path}' % p['id'],
         'engine': 'tlc+pdverif',
-        'level_claimed': {'category': c.get('level', 'model_checking'), 'text': c['text'], 'design_ref': c.get('design_ref', 'DESIGN.md section 3, ' + p['id'])},
+        'level_claimed': {'category': c.get('level', 'model_checking'), 'text': c['text'], 'design_ref': c.get('design_ref', 'DESIGN.md I.3 (as built, ' + p['id'] + ') and Part II section 3 (analysis)')},
         'level_note': c['note'],
         'technique': c['technique'],
     })
